@@ -6,7 +6,9 @@ from concurrent.futures import ThreadPoolExecutor
 
 VERIF = os.path.dirname(os.path.dirname(os.path.abspath(__file__)))
 REPO = os.environ.get("VERIF_REPO", "/repo")
-BUILD = os.path.join(VERIF, "build")
+# one build directory per tree under test, so that concurrent runs against scratch worktrees
+# (development tools) never replace each other's binaries
+BUILD = os.path.join(VERIF, "build") if REPO == "/repo" else os.path.join(VERIF, "build", "alt-" + os.environ.get("VERIF_BUILD_TAG", hashlib.sha256(REPO.encode()).hexdigest()[:10]))
 H = os.path.join(VERIF, "harness")
 
 SAN = "-fsanitize=address,undefined -fno-sanitize-recover=undefined"
